@@ -85,7 +85,7 @@ impl Check for C12 {
                     let inp_len = 24;
                     let inner = match d.weighted(&[12, 3, 2, 2, 1]) {
                         0 => Op::Next,
-                        1 => Op::PeekN { n: d.below(4) },
+                        1 => Op::PeekN { n: gen::gen_peek_n(d, 4) },
                         2 => Op::SetMode { m: d.below(nm) },
                         3 => Op::SetOffset { o: d.below(inp_len) },
                         _ => Op::Drop,
